@@ -9,6 +9,7 @@ package listener
 
 import (
 	"bytes"
+	"io"
 
 	vs "github.com/emitter-io/emitter/internal/verifspec"
 )
@@ -18,10 +19,12 @@ func pre_Conn(m *Conn) bool { return m != nil && m.socket != nil && m.limit != n
 // ---- write side: bytes reach the socket in the order they were written
 
 // Write(p) takes exactly one of three routes, and p is never reordered with earlier bytes:
-//  (a) rate-limited: p is appended to the queue and nothing is sent;
-//  (b) the queue is not empty: p is appended to the queue FIRST and then the whole queue is flushed;
-//  (c) only when the queue is empty does p go to the socket directly.
-//@ verify (*Conn).Write pre=pre_Conn post=post_Conn_Write props=C17
+//
+//	(a) rate-limited: p is appended to the queue and nothing is sent;
+//	(b) the queue is not empty: p is appended to the queue FIRST and then the whole queue is flushed;
+//	(c) only when the queue is empty does p go to the socket directly.
+//
+// @ verify (*Conn).Write pre=pre_Conn post=post_Conn_Write props=C17
 func post_Conn_Write(m *Conn, p []byte) bool {
 	lim := vs.TraceFind("Limiter).Limit")
 	app, sock := vs.TraceFind("Buffer).Write"), vs.TraceFind("Conn).Write")
@@ -43,7 +46,7 @@ func post_Conn_Write(m *Conn, p []byte) bool {
 }
 
 // Flush sends exactly what the queue holds, once, and empties the queue
-//@ verify (*Conn).Flush pre=pre_Conn post=post_Conn_Flush props=C17
+// @ verify (*Conn).Flush pre=pre_Conn post=post_Conn_Flush props=C17
 func post_Conn_Flush(m *Conn, res0 int, res1 error) bool {
 	ln := vs.TraceFindNth("Buffer).Len", 0)
 	if ln < 0 {
@@ -61,14 +64,14 @@ func post_Conn_Flush(m *Conn, res0 int, res1 error) bool {
 
 // specBufLen: the number of bytes a bytes.Buffer currently holds (uninterpreted; bytes.Buffer is outside the
 // verified code). The sniffer's representation invariant: the replay window lies inside the buffer.
-//@ opaque specBufLen
+// @ opaque specBufLen
 func specBufLen(b *bytes.Buffer) int { return b.Len() }
 
-//@ assume (*bytes.Buffer).Bytes iface post=post_Buffer_Bytes
+// @ assume (*bytes.Buffer).Bytes iface post=post_Buffer_Bytes
 func post_Buffer_Bytes(b *bytes.Buffer, res0 []byte) bool { return len(res0) == specBufLen(b) }
 
 // io.Reader's contract: 0 <= n <= len(p)
-//@ assume (io.Reader).Read iface post=post_Reader_Read
+// @ assume (io.Reader).Read iface post=post_Reader_Read
 func post_Reader_Read(p []byte, res0 int) bool { return 0 <= res0 && res0 <= len(p) }
 
 func pre_sniffer(s *sniffer) bool {
@@ -78,7 +81,7 @@ func pre_sniffer(s *sniffer) bool {
 // Read either serves the next bytes of the replay window (and advances it by exactly what it returned) without
 // touching the source, or - the window exhausted - reads from the source once and, while sniffing, appends exactly
 // the bytes it returned to the buffer, once.
-//@ verify (*sniffer).Read pre=pre_sniffer post=post_sniffer_Read_replay,post_sniffer_Read_bytes,post_sniffer_Read_source props=C17
+// @ verify (*sniffer).Read pre=pre_sniffer post=post_sniffer_Read_replay,post_sniffer_Read_bytes,post_sniffer_Read_source props=C17
 func post_sniffer_Read_replay(s *sniffer, p []byte, old_s sniffer, res0 int) bool {
 	if old_s.bufferSize <= old_s.bufferRead {
 		return true
@@ -105,16 +108,65 @@ func post_sniffer_Read_source(s *sniffer, p []byte, old_s sniffer, res0 int, res
 	sn := vs.TraceRet[int](r, 0)
 	w := vs.TraceFind("Buffer).Write")
 	if sn > 0 && old_s.sniffing {
-		// appended exactly once, exactly the bytes handed to the caller
-		return w >= 0 && vs.TraceCount("Buffer).Write") == 1 && r < w && len(vs.TraceArg[[]byte](w, 1)) == sn
+		// appended exactly once, exactly the bytes handed to the caller (the first sn bytes of p, as the source left
+		// them); the caller gets what the source returned - unless the buffer refused the bytes
+		if !(w >= 0 && vs.TraceCount("Buffer).Write") == 1 && r < w && vs.SameBytes(vs.TraceArg[[]byte](w, 1), p[:sn])) {
+			return false
+		}
+		if vs.TraceRet[error](w, 1) != nil {
+			return res0 == vs.TraceRet[int](w, 0) && res1 == vs.TraceRet[error](w, 1)
+		}
+		return res0 == sn && res1 == vs.TraceRet[error](r, 1) && s.lastErr == vs.TraceRet[error](r, 1)
 	}
 	return w < 0 && res0 == sn && res1 == vs.TraceRet[error](r, 1) && s.bufferRead == old_s.bufferRead && s.bufferSize == old_s.bufferSize
 }
 
 // reset rewinds to the start of everything sniffed so far
-//@ verify (*sniffer).reset pre=pre_sniffer_reset post=post_sniffer_reset props=C17
+// @ verify (*sniffer).reset pre=pre_sniffer_reset post=post_sniffer_reset props=C17
 func pre_sniffer_reset(s *sniffer) bool { return s != nil }
 func post_sniffer_reset(s *sniffer, snif bool) bool {
 	l := vs.TraceFind("Buffer).Len")
 	return l >= 0 && s.sniffing == snif && s.bufferRead == 0 && s.bufferSize == vs.TraceRet[int](l, 0)
+}
+
+// The connection reads through its sniffer only; a matcher is handed the sniffer rewound to the start of everything
+// sniffed so far with recording ON, and once a protocol matched the sniffer is rewound again with recording OFF -
+// so the protocol handler starts at the first byte the client sent, however many matchers peeked before.
+// @ assume (*sniffer).Read iface for=Read
+// @ verify (*Conn).Read pre=pre_Conn_Read post=post_Conn_Read props=C17
+func pre_Conn_Read(m *Conn) bool { return m != nil }
+func post_Conn_Read(m *Conn, p []byte, res0 int, res1 error) bool {
+	r := vs.TraceFind("sniffer).Read")
+	return r == 0 && vs.TraceLen() == 1 && vs.TraceArg[*sniffer](r, 0) == &m.reader && res0 == vs.TraceRet[int](r, 0) && res1 == vs.TraceRet[error](r, 1)
+}
+
+// @ assume (*sniffer).reset iface for=startSniffing
+// @ assume (*sniffer).reset iface for=doneSniffing
+// @ verify (*Conn).startSniffing pre=pre_Conn_Read post=post_startSniffing props=C17
+func post_startSniffing(m *Conn, res0 io.Reader) bool {
+	r := vs.TraceFind("sniffer).reset")
+	rd, ok := res0.(*sniffer)
+	return r == 0 && vs.TraceLen() == 1 && vs.TraceArg[*sniffer](r, 0) == &m.reader && vs.TraceArg[bool](r, 1) && ok && rd == &m.reader
+}
+
+// @ verify (*Conn).doneSniffing pre=pre_Conn_Read post=post_doneSniffing props=C17
+func post_doneSniffing(m *Conn) bool {
+	r := vs.TraceFind("sniffer).reset")
+	return r == 0 && vs.TraceLen() == 1 && vs.TraceArg[*sniffer](r, 0) == &m.reader && !vs.TraceArg[bool](r, 1)
+}
+
+// A prefix matcher looks at the connection ONLY through the reader it is given (the sniffer), with one ReadFull of
+// at most maxDepth bytes: everything it peeked at is therefore in the replay buffer.
+// @ assume io.ReadFull iface post=post_ReadFull
+func post_ReadFull(buf []byte, res0 int) bool { return 0 <= res0 && res0 <= len(buf) }
+
+// @ assume (*ptNode).match iface
+// @ verify (*patriciaTree).matchPrefix pre=pre_matchPrefix post=post_matchPrefix props=C17
+func pre_matchPrefix(t *patriciaTree, r io.Reader) bool {
+	return t != nil && t.root != nil && r != nil && 0 <= t.maxDepth && t.maxDepth <= 1<<16
+}
+func post_matchPrefix(t *patriciaTree, r io.Reader, res0 bool) bool {
+	f, m := vs.TraceFind("io.ReadFull"), vs.TraceFind("ptNode).match")
+	return f == 0 && m == 1 && vs.TraceLen() == 2 && vs.TraceArg[io.Reader](f, 0) == r && len(vs.TraceArg[[]byte](f, 1)) == t.maxDepth &&
+		len(vs.TraceArg[[]byte](m, 1)) == vs.TraceRet[int](f, 0) && vs.TraceArg[bool](m, 2) && res0 == vs.TraceRet[bool](m, 0)
 }
